@@ -359,14 +359,16 @@ func (db *SpecDB) LoadFile(path, pkgPath, prefix string) {
 					lc.NoBreak = true
 					continue
 				}
-				if len(f) >= 3 && f[1] == "body-assert" {
+				if len(f) >= 3 && (f[1] == "body-assert" || f[1] == "body-check") {
+					// body-assert: proved at the entry of the loop body, then assumed (a hint);  body-check: proved there and
+					// NOT assumed afterwards (a claim about the data the body meets; if it fails nothing later leans on it)
 					n, err := strconv.Atoi(f[0])
 					if err != nil {
 						db.errf(path, rl.line, "bad loop ordinal")
 						continue
 					}
-					rest = strings.TrimSpace(strings.TrimPrefix(strings.TrimSpace(strings.TrimPrefix(rest, f[0])), "body-assert"))
-					c := mkClause("body-assert")
+					rest = strings.TrimSpace(strings.TrimPrefix(strings.TrimSpace(strings.TrimPrefix(rest, f[0])), f[1]))
+					c := mkClause(f[1])
 					if c == nil {
 						continue
 					}
